@@ -123,14 +123,20 @@ structure Inv (P : RSt → Prop) (M : Nat) (r : RSt) (b : ByteArray) (N : Nat) :
   noReset : r.s.dp.needReset = false
   pos_ge : LZ_DICT_INIT_POS ≤ r.s.dp.pos
   noWrap : r.s.dp.pos + (M - r.s.produced) < r.s.dp.size
+  /-- the state's own (stale) input buffer agrees with the call's buffer on the consumed bytes -/
+  agree : Agree r.s.inPos r.s.inp b
 
-theorem Inv.mono {P : RSt → Prop} {M N N' : Nat} {r : RSt} {b b' : ByteArray} (h : Inv P M r b N) (hb : b.size ≤ b'.size)
+theorem agree_trans_le {n m : Nat} {a b c : ByteArray} (h1 : Agree n a b) (h2 : Agree m b c) (hnm : n ≤ m) : Agree n a c :=
+  ⟨h1.le, Nat.le_trans hnm h2.le', fun i h h' hi => by
+    have hb : i < b.size := Nat.lt_of_lt_of_le hi h1.le'
+    rw [h1.eq i h hb hi, h2.eq i hb h' (Nat.lt_of_lt_of_le hi hnm)]⟩
+
+theorem agree_self {n : Nat} {b : ByteArray} (h : n ≤ b.size) : Agree n b b := ⟨h, h, fun _ _ _ _ => rfl⟩
+
+theorem Inv.mono {P : RSt → Prop} {M N N' : Nat} {r : RSt} {b b' : ByteArray} (h : Inv P M r b N) (hb : Agree b.size b b')
     (hN : N ≤ N') : Inv P M r b' N' :=
-  ⟨h.p, Nat.le_trans h.inPos hb, h.base, Nat.le_trans h.prod hN, h.noReset, h.pos_ge, h.noWrap⟩
-
-theorem Inv.withInp {P : RSt → Prop} {code : RSt → Ret × RSt} (hc : CodeAbsorb P code) {M N : Nat} {r : RSt} {b : ByteArray}
-    (h : Inv P M r b N) (b' : ByteArray) : Inv P M (r.withInp b') b N :=
-  ⟨hc.frame r _ h.p rfl rfl rfl, h.inPos, h.base, h.prod, h.noReset, h.pos_ge, h.noWrap⟩
+  ⟨h.p, Nat.le_trans h.inPos hb.le', h.base, Nat.le_trans h.prod hN, h.noReset, h.pos_ge, h.noWrap,
+    agree_trans_le h.agree hb h.inPos⟩
 
 theorem prep_noWrap (N : Nat) (r : RSt) (b : ByteArray) (h : r.s.dp.pos + (N - r.s.produced) < r.s.dp.size) :
     prep N (r.withInp b) = r.view b (r.s.dp.pos + (N - r.s.produced)) := by
@@ -158,8 +164,8 @@ structure StepOk (P : RSt → Prop) (M : Nat) (r : RSt) (b : ByteArray) (N : Nat
 
 theorem step_ok {P : RSt → Prop} {code : RSt → Ret × RSt} (hc : CodeAbsorb P code) {M N : Nat} {r : RSt} {b : ByteArray}
     (hi : Inv P M r b N) (hN : N ≤ M) : StepOk P M r b N (code (r.view b (r.s.dp.pos + (N - r.s.produced)))) := by
-  have hp1 : P (r.view b (r.s.dp.pos + (N - r.s.produced))) := hc.frame r _ hi.p rfl rfl rfl
-  have sp := hc.spec _ hp1 hi.inPos (Nat.le_add_right _ _)
+  have hp1 : P (r.view b (r.s.dp.pos + (N - r.s.produced))) := hc.frame_view r b _ hi.p hi.agree
+  have sp := hc.spec _ hp1 hi.noReset hi.inPos (Nat.le_add_right _ _)
   generalize code (r.view b (r.s.dp.pos + (N - r.s.produced))) = c at sp ⊢
   obtain ⟨ret, r2⟩ := c
   obtain ⟨hcr, hret, hp2, hrs, _, _⟩ := sp
@@ -174,6 +180,7 @@ theorem step_ok {P : RSt → Prop} {code : RSt → Ret × RSt} (hc : CodeAbsorb 
   have a9 : r2.s.dp.pos ≤ r2.s.dp.limit := hcr.in_limit (Nat.le_add_right _ _)
   have hrs' : r2.s.dp.needReset = true → r.s.dp.needReset = true ∨ r.s.inPos < r2.s.inPos := hrs
   rw [a1] at a3
+  have hag2 : Agree r2.s.inPos r2.s.inp b := by rw [a1]; exact agree_self a3
   have b1 := hi.base; have b2 := hi.prod; have b3 := hi.pos_ge; have b4 := hi.noWrap
   have e1 : r.s.produced = r.s.hist.size - r.s.outBase := rfl
   have e2 : r2.s.produced = r2.s.hist.size - r2.s.outBase := rfl
@@ -189,7 +196,7 @@ theorem step_ok {P : RSt → Prop} {code : RSt → Ret × RSt} (hc : CodeAbsorb 
       · exact h
     refine ⟨a1, a5, hret, hp2, a3, ?_, ?_, ?_, ?_, hsh⟩
     · rw [hpost]
-      refine ⟨hc.frame r2 _ hp2 rfl rfl rfl, a3, ?_, ?_, rfl, Nat.le_refl _, ?_⟩
+      refine ⟨hc.frame_reset r2 hp2 hr, a3, ?_, ?_, rfl, Nat.le_refl _, ?_, hag2⟩
       · show r2.s.outBase ≤ r2.s.hist.size; omega
       · rw [e3]; omega
       · rw [e3]; show LZ_DICT_INIT_POS + _ < r2.s.dp.size
@@ -213,7 +220,7 @@ theorem step_ok {P : RSt → Prop} {code : RSt → Ret × RSt} (hc : CodeAbsorb 
       have i2 : r2.s.produced ≤ N := by omega
       have i3 : LZ_DICT_INIT_POS ≤ r2.s.dp.pos := by simp only [LZ_DICT_INIT_POS]; omega
       have i4 : r2.s.dp.pos + (M - r2.s.produced) < r2.s.dp.size := by omega
-      exact ⟨hp2, a3, i1, i2, hr', i3, i4⟩
+      exact ⟨hp2, a3, i1, i2, hr', i3, i4, hag2⟩
     · rw [hpost]; exact a1
     · rw [hpost]
     · rw [hpost]
@@ -319,15 +326,15 @@ theorem absorb_aux {P : RSt → Prop} {code : RSt → Ret × RSt} (hc : CodeAbso
     cases fY with
     | zero => exact absurd rfl hY
     | succ fY =>
-    have hi' : Inv P M r b' N' := hi.mono hag.le' hNN
+    have hi' : Inv P M r b' N' := hi.mono hag hNN
     have hnw : r.s.dp.pos + (N - r.s.produced) < r.s.dp.size := by have := hi.noWrap; omega
     have hnw' : r.s.dp.pos + (N' - r.s.produced) < r.s.dp.size := by have := hi.noWrap; omega
     have hLL : r.s.dp.pos + (N - r.s.produced) ≤ r.s.dp.pos + (N' - r.s.produced) := by omega
     have stX := step_ok hc hi (Nat.le_trans hNN hNM)
     have stY := step_ok hc hi' hNM
-    have hstop := hc.stop r b b' _ _ hi.p hi.inPos (Nat.le_add_right _ (N - r.s.produced)) hag hLL hi.noReset
-    have hyield := hc.yield r b b' _ _ hi.p hi.inPos (Nat.le_add_right _ (N - r.s.produced)) hag hLL hi.noReset
-    have hresume := hc.resume r b b' _ _ hi.p hi.inPos (Nat.le_add_right _ (N - r.s.produced)) hag hLL hi.noReset
+    have hstop := hc.stop r b b' _ _ hi.p hi.agree hi.inPos (Nat.le_add_right _ (N - r.s.produced)) hag hLL hi.noReset
+    have hyield := hc.yield r b b' _ _ hi.p hi.agree hi.inPos (Nat.le_add_right _ (N - r.s.produced)) hag hLL hi.noReset
+    have hresume := hc.resume r b b' _ _ hi.p hi.agree hi.inPos (Nat.le_add_right _ (N - r.s.produced)) hag hLL hi.noReset
     rw [dB_succ code fX N (r.withInp b), prep_noWrap N r b hnw] at hX hZ hfree ⊢
     rw [dB_succ code fY N' (r.withInp b'), prep_noWrap N' r b' hnw'] at hY ⊢
     generalize code (r.view b (r.s.dp.pos + (N - r.s.produced))) = cX at *
@@ -394,7 +401,7 @@ theorem absorb_aux {P : RSt → Prop} {code : RSt → Ret × RSt} (hc : CodeAbso
         rw [hp1] at i3
         simp only [hfl, Bool.false_eq_true, if_false, hp1, hok, if_true, forall_const] at hX hZ hfree ⊢
         have hshift := stX.shift N' hNN
-        have iZ : Inv P M cX.2 b' N' := i3.mono hag.le' hNN
+        have iZ : Inv P M cX.2 b' N' := i3.mono hag hNN
         have hnwZ : cX.2.s.dp.pos + (N' - cX.2.s.produced) < cX.2.s.dp.size := by have := iZ.noWrap; omega
         have stZ := step_ok hc iZ hNM
         cases fZ with
@@ -454,8 +461,8 @@ theorem absorb {P : RSt → Prop} {code : RSt → Ret × RSt} (hc : CodeAbsorb P
     ∧ (decodeBufferR code fY N' (r.withInp b')).1 ≠ .progError
     ∧ Inv P M (decodeBufferR code fX N (r.withInp b)).2 b' N' := by
   have bX := dB_noProg hc (Nat.le_trans hNN hNM) fX r hi hfX
-  have bY := dB_noProg hc hNM fY r (hi.mono hag.le' hNN) hfY
-  have iX := bX.2.1.mono hag.le' hNN
+  have bY := dB_noProg hc hNM fY r (hi.mono hag hNN) hfY
+  have iX := bX.2.1.mono hag hNN
   have bZ := dB_noProg hc hNM fZ _ iX hfZ
   exact ⟨absorb_aux hc hNN hNM hag fX fY fZ r hi bX.1 bY.1 (fun _ => bZ.1) hfree, bX.1, bY.1, iX⟩
 
